@@ -59,6 +59,30 @@ fn c01_roundtrip() {
         files += 1; entries += es.len();
         if let Ok(d) = decode_file(&bytes, Some(cfg.interval)) { if d.blocks.iter().filter(|b| b.depth >= 2 && b.depth <= cfg.levels as usize).count() > 1 { multi += 1; } }
     }
+    // configuration corners: every codec at compression levels from 0 to far out of any codec's range, the largest possible block
+    // size (a single data block) and in-block interval, finishing with `finish()` on a borrowed sink as well as with `into_inner()`
+    {
+        let keys = keyset(1, 60, &mut rng); let es = values_for(&keys, &mut rng, 0);
+        let mut corner: Vec<Cfg> = vec![];
+        for ct in codecs() { for level in [0u32, 1, 9, 10, 19, 22, 23, 100, u32::MAX] { corner.push(Cfg { ct, level, block_size: 1024, interval: 2, levels: 1 }); } }
+        corner.push(Cfg { ct: grenad::CompressionType::None, level: 0, block_size: usize::MAX, interval: usize::MAX, levels: 0 });
+        corner.push(Cfg { ct: grenad::CompressionType::Snappy, level: 0, block_size: usize::MAX, interval: 1, levels: 255 });
+        corner.push(Cfg { ct: grenad::CompressionType::None, level: 0, block_size: 0, interval: usize::MAX, levels: 3 });
+        for cfg in corner {
+            for (ei, es) in [es.clone(), vec![]].into_iter().enumerate() {
+                let es = &es;
+                let r = std::panic::catch_unwind(|| { let a = write_file(&cfg, es);
+                    let mut b = Vec::new(); { let mut w = cfg.builder().build(&mut b); for (k, v) in es.iter() { w.insert(k, v).unwrap(); } w.finish().unwrap(); } (a, b) });
+                let (a, b) = match r { Ok(x) => x, Err(p) => { let m = p.downcast_ref::<String>().cloned().or_else(|| p.downcast_ref::<&str>().map(|s| s.to_string())).unwrap_or_default();
+                    cex(format!("C01 writing {} entries panicked or failed: `{}` cfg={:?}", es.len(), m, cfg)) } };
+                if a != b { cex(format!("C01 `finish()` on a borrowed sink left {} bytes, `into_inner()` returns {} bytes for the same {} inserts cfg={:?}", b.len(), a.len(), es.len(), cfg)); }
+                match scan_fwd(&b) { Ok(got) => if got[..] != es[..] { cex(format!("C01 forward scan of the file left by finish() differs: got {} entries want {} cfg={:?}", got.len(), es.len(), cfg)) }, Err(e) => cex(format!("C01 the file left by finish() ({} inserts) does not open / scan: {} cfg={:?}", es.len(), e, cfg)) }
+                let rd = Reader::new(Cursor::new(&b[..])).unwrap_or_else(|e| cex(format!("C01 file does not open: {} cfg={:?}", e, cfg)));
+                if rd.len() != es.len() as u64 || rd.compression_type() != cfg.ct { cex(format!("C01 len()={} codec={:?} for {} inserts cfg={:?}", rd.len(), rd.compression_type(), es.len(), cfg)); }
+                files += 1; entries += es.len(); let _ = ei;
+            }
+        }
+    }
     // block-size matrix per codec: one entry far larger than a block (above 16 MiB), one above 64 KiB, small ones around them
     for (ci, ct) in codecs().into_iter().enumerate() {
         let big_len = if profile_dev() { 300_000 + ci } else { 17 * 1024 * 1024 + 3 + ci }; // the dev-profile build is slow: it checks assertions / overflow, not sizes
@@ -85,7 +109,8 @@ fn c09_format_and_interop() {
     for (cfg, es) in scenarios(&mut rng) {
         let bytes = write_file(&cfg, &es);
         let d = decode_file(&bytes, Some(cfg.interval)).unwrap_or_else(|e| cex(format!("C09 independent decoder rejects the file: {} cfg={:?} n={}", e, cfg, es.len())));
-        if d.meta.version != 2 || d.meta.levels != cfg.levels || d.meta.codec != cfg.ct as u8 { cex(format!("C09 trailer fields wrong: {:?} for cfg={:?}", d.meta, cfg)); }
+        // (the trailer states the index levels the file really has -- the decoder has just walked them; the request is not echoed anywhere)
+        if d.meta.version != 2 || d.meta.levels > cfg.levels || d.meta.codec != cfg.ct as u8 { cex(format!("C09 trailer fields wrong: {:?} for cfg={:?}", d.meta, cfg)); }
         if d.entries != es { cex(format!("C09 independent decoder recovers {} entries, inserted {} cfg={:?}", d.entries.len(), es.len(), cfg)); }
         files += 1; blocks += d.blocks.len();
         // 0.4.7 reader on current files (codecs both versions support: None, snappy-pre-0.5 == id 1)
